@@ -3,6 +3,7 @@
 package main
 
 import (
+	subtypes "github.com/sge-network/sge/x/subaccount/types"
 	"encoding/binary"
 	"fmt"
 	"sort"
@@ -74,7 +75,7 @@ func (c *Chain) Dump() []string {
 		add("BAL sub%d %s", id, c.Bal(sdk.MustAccAddressFromBech32(sa.Address)))
 		add("SUB %d %s %s %s %s %s", id, c.accS(sa.Owner), intS(sa.Balance.DepositedAmount), intS(sa.Balance.SpentAmount),
 			intS(sa.Balance.WithdrawnAmount), intS(sa.Balance.LostAmount))
-		for _, lb := range sa.LockedBalances {
+		for _, lb := range c.allLocks(sa.Address) {
 			add("LOCK %d %d %s", id, lb.UnlockTS, intS(lb.Amount))
 		}
 	}
@@ -240,4 +241,11 @@ func (c *Chain) Dump() []string {
 
 	sort.Strings(out)
 	return out
+}
+
+// allLocks reads every lock record of a subaccount (expired ones included) straight from the keeper's range
+// read, so that the observation does not depend on what the genesis export chooses to list.
+func (c *Chain) allLocks(addr string) []subtypes.LockedBalance {
+	l, _ := c.App.SubaccountKeeper.GetBalances(c.Ctx(), sdk.MustAccAddressFromBech32(addr), subtypes.LockedBalanceStatus_LOCKED_BALANCE_STATUS_UNSPECIFIED)
+	return l
 }
